@@ -1,7 +1,7 @@
 (* QueryAddr.v — what a filter over a query in disjunctive form selects, from the path text: the members for which some
    conjunction has all its basic queries true — an existence test is true when its steps reach something, its negation when
    they reach nothing, a comparison when the number reached stands in the relation (!= : when not ==). *)
-From JP Require Import Peg Grammar Slice Text Tree Actions Json Eval WF Spec SortFacts EvalInv1 EvalInv4 EvalTop EndToEnd Codec KeyDefs KeyParse IdxParse SliceParse UnionParse WildParse RecParse ChainParse SpacePath FunParse AggParse FiltParse CmpParse NegFilt LitParse RootOp QueryParse ChainAddr FunAddr AggAddr FiltAddr CmpAddr SpecRootFree.
+From JP Require Import Peg Grammar Slice Text Tree Actions Json Eval WF Spec SortFacts EvalInv1 EvalInv4 EvalTop EndToEnd Codec KeyDefs KeyParse IdxParse SliceParse UnionParse WildParse RecParse ChainParse SpacePath FunParse AggParse FiltParse CmpParse NegFilt LitParse RootOp RegexOp QueryParse ChainAddr FunAddr AggAddr FiltAddr CmpAddr SpecRootFree.
 From Coq Require Import Lia.
 Open Scope list_scope.
 
@@ -38,6 +38,8 @@ Section QueryAddr.
   Notation sp := (sp ffun afun regex_match).
   Notation holds := (holds ffun afun regex_match).
 
+  (* @ inner =~ /body/: the value is a string and the regular expression (regexp.MatchString, a parameter) matches it *)
+  Definition rx_test (re : string) (e : entry) : bool := match e with Some (VStr s) => regex_match re s | _ => false end.
   (* @ inner == $ steps: deep equality with the value the `$` path offers; when it offers nothing, the library's both-absent
      rule — every member is kept exactly when no member has the inner value either (the verdict looks at all the members) *)
   Definition peq_test (i j : list rstep) (root : value) (vals : list value) (v : value) : bool :=
@@ -58,16 +60,18 @@ Section QueryAddr.
                    | None => false
                    end
     | BPQ i ne j => if ne then negb (peq_test i j root vals v) else peq_test i j root vals v
+    | BX i body => rx_test (text_of body) (reach1 i v)
     end.
   Definition dnf_test (root : value) (vals : list value) (d : list (list bq)) (v : value) : bool :=
     existsb (fun c => forallb (fun b => bq_test root vals b v) c) d.
 
-  Lemma bq_ok_steps b : bq_ok b = true -> forallb rstep_ok (match b with BE i | BN i | BC i _ _ | BL i _ _ | BRE i | BRN i | BCR i _ _ | BPQ i _ _ => i end) = true.
+  Lemma bq_ok_steps b : bq_ok b = true -> forallb rstep_ok (match b with BE i | BN i | BC i _ _ | BL i _ _ | BRE i | BRN i | BCR i _ _ | BPQ i _ _ | BX i _ => i end) = true.
   Proof.
-    destruct b as [i|i|i o lit|i ne l|j|j|i o j|i ne j]; cbn [bq_ok]; intros H; try exact H.
+    destruct b as [i|i|i o lit|i ne l|j|j|i o j|i ne j|i body]; cbn [bq_ok]; intros H; try exact H.
     - apply andb_true_iff in H; destruct H as [H _]; apply andb_true_iff in H; exact (proj1 H).
     - apply andb_true_iff in H; destruct H as [H _]; apply andb_true_iff in H; exact (proj1 H).
     - apply andb_true_iff in H; destruct H as [H _]. apply andb_true_iff in H; destruct H as [H _]. apply andb_true_iff in H; exact (proj1 H).
+    - apply andb_true_iff in H; destruct H as [H _]; apply andb_true_iff in H; exact (proj1 H).
     - apply andb_true_iff in H; destruct H as [H _]; apply andb_true_iff in H; exact (proj1 H).
   Qed.
 
@@ -267,10 +271,49 @@ Section QueryAddr.
     apply map_ext. intros v. unfold peq_test. destruct (root_entry j root) as [w|]; [reflexivity|]. f_equal. clear. induction vals as [|z l IH]; [reflexivity|]. cbn [map existsb]. rewrite IH. reflexivity.
   Qed.
 
+  Lemma cmp_holds_regex re es :
+    Spec.cmp_holds regex_match (CRegex re) (List.length es) (if existsb (fun x => negb (isE x)) es then es else [None]) (Some (VStr "regex")) =
+    map (rx_test re) es.
+  Proof.
+    unfold Spec.cmp_holds. cbv zeta.
+    change (is_valid (CRegex re) (Some (VStr "regex"))) with true. rewrite andb_true_r.
+    assert (Hk : forall e, cmp_keeps regex_match (CRegex re) (validate_to (CRegex re) (Some (VStr "regex"))) (validate_to (CRegex re) e) = rx_test re e).
+    { intros e. unfold cmp_keeps, validate_to. cbn [validator_of]. destruct e as [v|]; [destruct v|]; cbn [validate_entry cmp_entry fst rx_test]; try reflexivity.
+      destruct (regex_match re s); reflexivity. }
+    assert (Hnone : forall l0, existsb (is_valid (CRegex re)) l0 = false -> map (rx_test re) l0 = repeat false (List.length l0)).
+    { induction l0 as [|e l0 IH]; intros H; [reflexivity|]. cbn [existsb] in H. apply orb_false_iff in H. destruct H as [H1 H2].
+      cbn [map List.length repeat]. rewrite (IH H2). f_equal. unfold is_valid in H1. cbn [validator_of] in H1.
+      destruct e as [v|]; [destruct v|]; try reflexivity; discriminate H1. }
+    destruct (existsb (fun x => negb (isE x)) es) eqn:Ee.
+    - destruct (existsb (is_valid (CRegex re)) es) eqn:Ev.
+      + rewrite Nat.eqb_refl, map_map. apply map_ext. exact Hk.
+      + cbn [Bool.eqb]. rewrite (Hnone es Ev). reflexivity.
+    - change (existsb (is_valid (CRegex re)) [None]) with false. cbn [Bool.eqb].
+      assert (Hall : map (rx_test re) es = repeat false (List.length es)).
+      { clear -Ee. induction es as [|e es IH]; [reflexivity|]. cbn [existsb] in Ee. apply orb_false_iff in Ee. destruct Ee as [E1 E2].
+        cbn [map List.length repeat]. rewrite (IH E2). destruct e; [discriminate E1|reflexivity]. }
+      rewrite Hall. reflexivity.
+  Qed.
+
+  Lemma holds_rx i body root vals : forallb rstep_ok i = true -> Forall small vals ->
+    holds (rx_query cfg i body) root vals = map (fun v => rx_test (text_of body) (reach1 i v)) vals.
+  Proof.
+    intros Hs Hv. unfold rx_query, cmp_left, filter_pq.
+    change (holds (QCmp (CP (PqCur ?n) false) (CP (PqLit ?lv) true) ?c) root vals) with
+      (Spec.cmp_holds regex_match c (List.length vals)
+         (let es0 := map (fun v => match sp n root (None, v) with x :: _ => Some (res_value (Spec.wrap x)) | [] => None end) vals in
+          if existsb (fun x => negb (isE x)) es0 then es0 else [None]) (Some lv)).
+    cbv zeta.
+    assert (E0 : map (fun v => match sp (clear_acc (delete_root (inner_root cfg i))) root (None, v) with x :: _ => Some (res_value (Spec.wrap x)) | [] => None end) vals
+                 = map (reach1 i) vals).
+    { apply map_ext_in. intros v Hin. rewrite Forall_forall in Hv. apply (operand_entry cfg ffun afun regex_match i root v Hs (Hv v Hin)). }
+    rewrite E0. rewrite <- (map_length (reach1 i) vals). rewrite (cmp_holds_regex _ _), map_map. reflexivity.
+  Qed.
+
   Lemma holds_bq b root vals : bq_ok b = true -> small root -> Forall small vals ->
     holds (bq_query cfg parse_float b) root vals = map (bq_test root vals b) vals.
   Proof.
-    intros Hb Hr Hv. pose proof (bq_ok_steps b Hb) as Hs. destruct b as [i|i|i o lit|i ne l|j|j|i o j|i ne j]; cbn [bq_query bq_test].
+    intros Hb Hr Hv. pose proof (bq_ok_steps b Hb) as Hs. destruct b as [i|i|i o lit|i ne l|j|j|i o j|i ne j|i body]; cbn [bq_query bq_test].
     - apply (holds_exists cfg ffun afun regex_match i root vals Hs Hv).
     - change (holds (QNot ?q) root vals) with (map negb (holds q root vals)).
       rewrite (holds_exists cfg ffun afun regex_match i root vals Hs Hv), map_map. reflexivity.
@@ -287,6 +330,7 @@ Section QueryAddr.
       cbv zeta. destruct ne.
       + change (holds (QNot ?q) root vals) with (map negb (holds q root vals)). rewrite (holds_root_peq i j root vals Hs Hj Hr Hv), map_map. reflexivity.
       + apply (holds_root_peq i j root vals Hs Hj Hr Hv).
+    - apply (holds_rx i body root vals Hs Hv).
   Qed.
 
   Lemma holds_and_fold bs : forall q0 h0 root vals, forallb bq_ok bs = true -> small root -> Forall small vals ->
